@@ -256,6 +256,13 @@ func runBridge(env *simrt.Env, sc *scenario) {
 		d := o.Dir
 		switch o.K {
 		case "w":
+			if lossAll && (models[d].dropN > 0 || models[d].reorderN > 0) {
+				// Whether a write lost by the loss setting counts as one of the "next N writes" of a
+				// pending DropNextNWrites/ReorderNextNWrites is not fixed by the contract (either
+				// reading delivers "the written messages minus those the test asked to drop"):
+				// such a write is not made.
+				continue
+			}
 			b := msg(nextID, o.N)
 			nextID++
 			cp := append([]byte(nil), b...)
